@@ -203,6 +203,11 @@ func GenVector(t ElemType, storage, pattern string, n int, r *prng.Rand, nvar, o
 			if pattern == "explicit-stored" || (pattern == "random" && r.Chance(0.3)) {
 				s.Stored[i] = true
 			}
+			// Real types: now and then an element with value zero that carries
+			// derivatives (e.g. x - x0 at x0) - not a zero element for the containers
+			if t.IsReal && nvar > 0 && order > 0 && r.Chance(0.12) {
+				s.Vals[i] = RandJet(t, r, 0, nvar, order)
+			}
 			continue
 		}
 		v := t.NonZero(r)
